@@ -88,6 +88,7 @@ def ops():
         {"op": "iadd_module"},
         {"op": "iadd_list"},
         {"op": "iadd_list_dup"},
+        {"op": "iadd_list_refused"},
         {"op": "attach_pattern", "what": "fresh"},
         {"op": "attach_pattern", "what": "foreign"},
         {"op": "attach_pattern", "what": "foreign_clone"},
@@ -192,6 +193,19 @@ class Own:
                         or pat.project is not p or pat2.project is not p:
                     L["viol"].append(C.viol("iadd-pattern", {"op": k}, {"patterns_added": len(p.patterns) - len(before_pats)}))
                 before_pats = before_pats + [pat, pat2]
+            elif k == "iadd_list_refused":
+                # a list whose LAST item is refused, after items that are already part of this project: they stay where
+                # they are (a refusal must not release anything the request did not attach)
+                sq = S.project(L["q"])
+                sp = S.project(p)
+                lst = [m_ for m_ in p.modules if m_ is not None][:2] + [L["qmod"]]
+                try:
+                    p += lst
+                    outcome = "accepted"
+                except ModuleOwnershipError:
+                    outcome = "raise:ModuleOwnershipError"
+                if S.diff(sq, S.project(L["q"])) or S.diff(sp, S.project(p)) or L["qmod"].parent is not L["q"]:
+                    L["viol"].append(C.viol("refused-attach-changes-state", {"op": k}, {}))
             elif k == "iadd_list_dup":
                 # the same (new) module named twice in one list, another new module in between
                 new_obj = rv.m.Amplifier()
@@ -423,6 +437,8 @@ class Own:
             place("Amplifier")
             m["pats"].append("Pattern")
             m["pats"].append("Pattern")
+        elif k == "iadd_list_refused":
+            return "raise:ModuleOwnershipError"
         elif k == "iadd_list_dup":
             place("Amplifier")
             place("Generator")
